@@ -155,8 +155,61 @@ def rule_replace(ck):
         # ordering: the removal loop is left before the first install: the outer loop header dominates installs
         outer = min(hs, key=lambda h: len(f.dominators().get(h, ()))) if hs else None
         ck.ob("mpt.replace", f"{nm}/removal-before-first-install", outer is not None and all(f.dominates(outer, s.bb) and r.bb not in f.after(s.bb) for s in sets), "", f.loc(r.bb))
+        # no way round: every normal return of the handler has been through the take and through the removal loop
+        # (an early success reply — e.g. for an empty request — would leave the previous set installed)
+        rets = set(f.return_blocks())
+        errs = f.error_exit_blocks()
+        if outer is not None:
+            for what_, blk in (("take", takes[0].bb), ("removal-loop", outer)):
+                reach = cut_edges_reach(f, [0], {blk} | errs, set()) if blk != 0 else set()
+                ck.ob("mpt.replace", f"{nm}/every-success-passes-{what_}", not (reach & rets), "a normal return is reachable that skips it", f.loc(blk), what=f"{nm}: a success reply is possible without {'taking' if what_ == 'take' else 'removing'} the previous breakpoint set")
         stores = [i for i, j, p, rv, sp in f.assigns() if p[-1:] == ["." + fld]] + [c.bb for c in f.calls() if re.search(r"HashMap::<K, V, S(, A)?>::insert$", c.name) and _mentions(expr_of(f, c.args[0]), fld)]
         ck.ob("mpt.replace", f"{nm}/stores-new-set", len(stores) >= 1, "", f.loc())
+
+
+def rule_replace_data(ck):
+    """setDataBreakpoints: same replace discipline over watchpoints"""
+    prog = ck.prog
+    nm = "handle_set_data_breakpoints"
+    f = _handler(prog, nm)
+    ck.saw(f)
+    takes = [c for c in f.calls() if re.search(r"mem::take$|mem::replace$", c.name) and _mentions(expr_of(f, c.args[0]), "data_breakpoints")]
+    ck.ob("mpt.replace", f"{nm}/takes-previous-set", len(takes) == 1, f"{len(takes)} take sites", f.loc())
+    rm = [c for c in f.calls() if re.search(r"Debugger>::remove_watchpoint_by_(expr|addr)$", c.name)]
+    W = "debugger::watchpoint::<impl debugger::Debugger>::set_watchpoint_on_"
+    inst = {W + "expr", W + "memory"}
+    # the installs may sit in a closure invoked from the handler: a call site counts when it reaches them
+    sets = [c for c in f.calls() if c.name in inst or prog.call_reaches(c, inst, depth=2)]
+    reached = {n for n in inst if any(c.name == n or prog.call_reaches(c, {n}, depth=2) for c in sets)}
+    ck.ob("mpt.replace", f"{nm}/removes-and-installs", {c.name.rsplit('_', 1)[-1] for c in rm} == {"expr", "addr"} and reached == inst, f"remove calls={len(rm)} install calls={len(sets)}", f.loc())
+    if not (takes and rm and sets):
+        return
+    # both removals sit in one loop over the taken set, one per target kind
+    hs = None
+    for r in rm:
+        h = [x for x in loop_headers(f, r.bb) if f.call_at(x) is not None and is_iter_next(f.call_at(x))]
+        hs = set(h) if hs is None else hs & set(h)
+    ck.ob("mpt.replace", f"{nm}/every-previous-record", bool(hs), "", f.loc(rm[0].bb))
+    if not hs:
+        return
+    outer = min(hs, key=lambda h: len(f.dominators().get(h, ())))
+    src = expr_str(expr_of(f, f.call_at(outer).args[0], depth=16), 14)
+    ck.ob("mpt.replace", f"{nm}/iterates-previous-set", "take(" in src or "replace(" in src, f"loops over {src[:120]}", f.loc(outer))
+    # the record's target kind selects the removal: a switch on DataBreakpointTarget inside the loop dominates each removal
+    sws = switches_on_type(f, "dap::yadap::session::DataBreakpointTarget") or switches_on_type(f, "dap::yadap::session::breakpoint::DataBreakpointTarget")
+    ok = False
+    for i, t, pl in sws:
+        if outer in f.dominators().get(i, ()) and all(f.dominates(i, r.bb) for r in rm):
+            ok = True
+    ck.ob("mpt.replace", f"{nm}/removal-by-target-kind", ok, "", f.loc(rm[0].bb))
+    ck.ob("mpt.replace", f"{nm}/removal-before-first-install", all(f.dominates(outer, s_.bb) and not any(r.bb in f.after(s_.bb) for r in rm) for s_ in sets), "", f.loc(rm[0].bb))
+    rets = set(f.return_blocks())
+    errs = f.error_exit_blocks()
+    for what_, blk in (("take", takes[0].bb), ("removal-loop", outer)):
+        reach = cut_edges_reach(f, [0], {blk} | errs, set()) if blk != 0 else set()
+        ck.ob("mpt.replace", f"{nm}/every-success-passes-{what_}", not (reach & rets), "a normal return is reachable that skips it", f.loc(blk), what=f"{nm}: a success reply is possible without {'taking' if what_ == 'take' else 'removing'} the previous watchpoint set")
+    stores = [i for i, j, p_, rv, sp in f.assigns() if p_[-1:] == [".data_breakpoints"]]
+    ck.ob("mpt.replace", f"{nm}/stores-new-set", len(stores) >= 1, "", f.loc())
 
 
 def _mentions(e, fld):
@@ -298,5 +351,6 @@ def run(ck):
     rule_all_addresses(ck)
     rule_rekey(ck)
     rule_replace(ck)
+    rule_replace_data(ck)
     rule_verified(ck)
     rule_hits(ck)
